@@ -84,6 +84,9 @@ func NewNegotiator(cfg func(*Session, *StreamConfig) StreamConfig) Negotiator {
 type negotiatorState struct {
 	doRestart bool
 	cancelTee context.CancelFunc
+
+	// sawFeatures is set once the first features list has been handled.
+	sawFeatures bool
 }
 
 func negotiator(f func(*Session, *StreamConfig) StreamConfig) Negotiator {
@@ -204,7 +207,12 @@ func negotiator(f func(*Session, *StreamConfig) StreamConfig) Negotiator {
 		}
 
 		cfg = f(s, &cfg)
-		mask, rw, err = negotiateFeatures(ctx, s, data == nil, websocket, cfg.Features)
+		// Whether this is the first features list cannot be derived from data
+		// being nil: installing the tee connection is a negotiator round of its
+		// own that already passes state along.
+		first := !nState.sawFeatures
+		nState.sawFeatures = true
+		mask, rw, err = negotiateFeatures(ctx, s, first, websocket, cfg.Features)
 		nState.doRestart = rw != nil
 		return mask, rw, nState, err
 	}
